@@ -18,12 +18,15 @@ import numpy as np
 from harness import common
 from harness.common import Failure, lean_run, rat, ratlist
 
-PROP_MODULES = ["ArmiVerif.Props.C12"]
-PARTIAL = ("link detection geometry (areAxiallyLinked), target selection and the expansion factors (material "
-           "correlations, temperature averaging) are inputs of the model, read from the real objects on every case; "
-           "target-component mass conservation is proved only under the explicit linkage hypothesis (the target's lower "
-           "link is the lower block's target, or absent) - where it fails the unchanged code loses 2-3 % (known finding "
-           "F9); the radial part of thermal expansion (area, density at constant height) is property C03's")
+PROP_MODULES = ["ArmiVerif.Props.C12", "ArmiVerif.Props.C12Link"]
+PARTIAL = ("the expansion factors (material correlations, temperature averaging) and, for the linkage, the values the code "
+           "reads from each component (shape class, multiplicity, cold inner / outer bounding diameters, solid?) are inputs "
+           "of the model, read from the real objects on every case; areAxiallyLinked, the construction of the lower / upper "
+           "links and target selection (_setTargetComponents, determineTargetComponent, _isFuelLocked) are inside the model "
+           "and tied; TARGET_FLAGS_IN_PREFERRED_ORDER and the Flags constants are data passed to the model; target-component "
+           "mass conservation is proved under the explicit linkage hypothesis LowerIsLowerTarget, decidable from the geometry "
+           "(lowerIsLowerTarget_of_geometry) - where it fails the unchanged code loses 2-3 % (known finding F9); the radial "
+           "part of thermal expansion (area, density at constant height) is property C03's")
 ASSUMPTIONS = [
     "component mass = number density x area x parent block height (Component.getMass via getVolume); checked by the "
     "mass clauses of the oracle on every case",
@@ -31,6 +34,8 @@ ASSUMPTIONS = [
     "floating-point rounding is not modelled: prescribed growth factors are short dyadics 1 + k/256, comparison 1e-9 relative",
 ]
 
+CLASS_TAGS = {}
+LINK = ([], [])      # requests / expectations of the linkage and target-selection ties
 F9_KEY = "target-mass-lower-link-is-not-lower-target"
 F9B_KEY = "negative-height-lower-link-is-not-lower-target"
 
@@ -85,6 +90,25 @@ def make_changer():
         except Exception:  # noqa
             return float("nan")
 
+    def geo(c):
+        """what areAxiallyLinked reads: class tag, UnshapedComponent?, solid?, mult, cold inner / outer bounding diameter"""
+        from armi.reactor.components import UnshapedComponent
+
+        tag = CLASS_TAGS.setdefault(type(c), len(CLASS_TAGS) + 1)
+        un = isinstance(c, UnshapedComponent)
+        try:
+            m = num(c.getDimension("mult"))
+        except Exception:  # noqa
+            m = float("nan")
+        if un:
+            i = o = 0.0
+        else:
+            try:
+                i, o = num(c.getCircleInnerDiameter(cold=True)), num(c.getBoundingCircleOuterDiameter(cold=True))
+            except Exception:  # noqa
+                i = o = float("nan")
+        return [tag, int(un), int(bool(c.containsSolidMaterial())), m, i, o]
+
     def rep_nuclide(c):
         nd = c.getNumberDensities()
         for k in sorted(nd):
@@ -104,10 +128,14 @@ def make_changer():
                 d = {"name": c.name, "nuc": nuc, "nd": num(c.getNumberDensity(nuc)) if nuc else 0.0,
                      "area": num(c.getArea()), "mass": num(c.getMass()),
                      "h": getattr(c, "height", None), "zb": getattr(c, "zbottom", None), "zt": getattr(c, "ztop", None)}
+                d["geo"] = geo(c)
                 if chg is not None:
                     d["g"] = num(chg.expansionData.getExpansionFactor(c))
                     low = chg.linked.linkedComponents[c].lower
                     d["lower"] = None if low is None else prev.index(low)
+                    up = chg.linked.linkedComponents[c].upper
+                    nxt = list(iterSolidComponents(a[ib + 1])) if ib + 1 < len(a) else []
+                    d["upper"] = None if up is None else nxt.index(up)
                     if chg.expansionData.isTargetComponent(c):
                         tgt.append(ic)
                 comps.append(d)
@@ -140,9 +168,12 @@ def request(pre):
     nds = "[" + ",".join(ratlist([c["nd"] for c in b["comps"]]) for b in pre) + "]"
     areas = "[" + ",".join(ratlist([c["area"] for c in b["comps"]]) for b in pre) + "]"
     gs = "[" + ",".join(ratlist([c["g"] for c in b["comps"]]) for b in pre) + "]"
-    lowers = "[" + ",".join("[" + ",".join(opt(c["lower"]) for c in b["comps"]) + "]" for b in pre) + "]"
     targets = "[" + ",".join(opt(b["targets"][0] if b["targets"] else None) for b in pre) + "]"
-    return f"expand {hs} {zbs} {zts} {nds} {areas} {gs} {lowers} {targets}"
+    return f"expandg {hs} {zbs} {zts} {nds} {areas} {gs} {geo_arg(pre)} {targets}"
+
+
+def geo_arg(pre):
+    return "[" + ",".join("[" + ",".join(ratlist(c["geo"]) for c in b["comps"]) + "]" for b in pre) + "]"
 
 
 def aligned(pre, ib, ic):
@@ -254,6 +285,25 @@ def oracle_linkage(ctx, case, a, chg):
                              observed=[down, f1])
 
 
+def tie_linkage(ctx, case, pre, link_req, link_chk):
+    """the model computes lower / upper links from the geometry; compared with the real AssemblyAxialLinkage"""
+    try:
+        g = geo_arg(pre)
+    except Exception as e:  # noqa
+        ctx.fail("linkage-geometry-not-evaluable", "component bounding dimensions are finite numbers", case, observed=repr(e)[:200])
+        return
+    real = "[" + ",".join("[" + ",".join("(" + ("_" if c["lower"] is None else str(c["lower"])) + "," +
+                                          ("_" if c["upper"] is None else str(c["upper"])) + ")" for c in b["comps"]) + "]"
+                          for b in pre) + "]"
+    link_req.append(f"link {g}")
+    link_chk.append((dict(case, what="linkage"), real))
+    targets = "[" + ",".join("_" if not b["targets"] else str(b["targets"][0]) for b in pre) + "]"
+    shape = "[" + ",".join(str(len(b["comps"])) for b in pre) + "]"
+    exp = "[" + ",".join(("T" if (b["targets"] and aligned(pre, ib, b["targets"][0])) else "F") for ib, b in enumerate(pre)) + "]"
+    link_req.append(f"aligned {g} {targets} {shape}")
+    link_chk.append((dict(case, what="LowerIsLowerTarget per block"), exp))
+
+
 def masses(snap):
     return [[c["mass"] for c in b["comps"]] for b in snap]
 
@@ -330,6 +380,7 @@ def run_sequences(ctx, nseq, collect):
                 oracle_step(ctx, case, a, pre, post, masses(pre), H0, top0, sub, f9_budget)
                 if len(hist) == 1:
                     oracle_linkage(ctx, case, a, chg)
+                    tie_linkage(ctx, case, pre, *LINK)
                 if sub != "thermal" and masses(pre) != masses(before):
                     ctx.fail("prescribed-expansion-changes-mass-before-restacking", "nothing but the re-stacking changes masses", case)
                 safe_request(ctx, case, pre, req, chk, (case, pre, post, [float(x) for x in a.spatialGrid._bounds[2]]))
@@ -463,6 +514,7 @@ def one_step(ctx, collect, a, a0, chg, snapshot, iterSolid, case, H0, top0, f9_b
     pre, post = chg.pre, snapshot(a)
     oracle_step(ctx, case, a, pre, post, masses(pre), H0, top0, "percomp", f9_budget)
     oracle_linkage(ctx, case, a, chg)
+    tie_linkage(ctx, case, pre, *LINK)
     if mode == "isothermal":
         for ib, b in enumerate(a[:-1]):
             for ic, c in enumerate(iterSolid(b)):
@@ -597,7 +649,7 @@ def run_small_steps(ctx, collect):
 
 
 # --------------------------------------------------------------------------- assemblies built through the real API
-BUILT_KINDS = ("fuel", "holedslab", "slab", "holedpins", "pinslab")
+BUILT_KINDS = ("fuel", "holedslab", "slab", "holedpins", "pinslab", "pinslab61")
 BUILT_STACKS = [
     ["fuel", "holedslab"],          # derived HoledHexagon target directly above a base-class Hexagon (duct) that is not the lower target
     ["fuel", "holedpins"],          # derived HexHoledCircle target above base-class Circles (fuel = lower target, clad is not)
@@ -606,6 +658,7 @@ BUILT_STACKS = [
     ["holedslab", "slab"],          # base class above derived
     ["holedpins", "pinslab"],       # base class above derived
     ["holedslab", "holedslab"], ["slab", "slab"], ["fuel", "fuel"], ["holedpins", "holedpins"],   # same-type controls
+    ["pinslab", "pinslab61"], ["pinslab61", "pinslab", "pinslab"],      # same class, different multiplicity
     ["fuel", "holedslab", "slab", "holedpins"],
     ["slab", "fuel", "fuel", "holedslab", "holedslab"],
 ]
@@ -636,6 +689,9 @@ def build_assembly(kinds, heights):
         elif kind == "holedpins":
             comps = [HexHoledCircle("reflector", "HT9", od=0.80, holeOP=0.3, mult=127.0, **T)]
             tgt = "reflector"
+        elif kind == "pinslab61":   # same class as pinslab, other multiplicity: never linked to it
+            comps = [Circle("shield", "HT9", od=0.80, id=0.0, mult=61.0, **T)]
+            tgt = "shield"
         else:  # pinslab: solid steel pins
             comps = [Circle("shield", "HT9", od=0.80, id=0.0, mult=127.0, **T)]
             tgt = "shield"
@@ -720,14 +776,188 @@ def run_built(ctx, collect):
         ctx.count("built assemblies (subclassed / base-class shape stacks)")
 
 
+def flag_int(f):
+    return int.from_bytes(f.to_bytes(), "big")
+
+
+def run_targets(ctx):
+    """ExpansionData._setTargetComponents / determineTargetComponent / _isFuelLocked on single blocks of the fixture and
+    of the built assemblies: unset target (flag-based choice), explicit valid / unknown names, setFuel on / off, blocks
+    with components removed (no candidate -> only-solid fallback or refusal)"""
+    from armi.reactor.converters.axialExpansionChanger.expansionData import (TARGET_FLAGS_IN_PREFERRED_ORDER, ExpansionData)
+    from armi.reactor.flags import Flags
+    from armi.materials import material as mat_mod
+
+    req, chk = LINK
+    F = [flag_int(x) for x in (Flags.PLENUM, Flags.ACLP, Flags.DUMMY, Flags.FUEL, Flags.CLAD)]
+    pref = "[" + ",".join(str(flag_int(x)) for x in TARGET_FLAGS_IN_PREFERRED_ORDER) + "]"
+    fx = fixtures()
+    assems = list(fx["assems"])
+    with common.quiet():
+        assems += [build_assembly(k, [16.0] * (len(k) + 1)) for k in BUILT_STACKS[:6]]
+    seen = set()
+    for a0 in assems:
+        for ib, b0 in enumerate(a0):
+            key = (a0.getType() if a0.getType() != "builtAssembly" else id(a0), b0.getType(), ib if a0.getType() == "builtAssembly" else 0,
+                   tuple(c.name for c in b0))
+            if key in seen:
+                continue
+            seen.add(key)
+            names = [c.name for c in b0]
+            variants = [("", None), ("", "drop-first-solid"), ("", "drop-flagged")]
+            variants += [(ctx.rng.choice(names), None), ("no-such-component", None)]
+            variants += [("", "twin-flags")]
+            variants += [("", "flags:" + nm) for nm in ("ACLP", "PLENUM", "DUMMY", "FUEL", "SHIELD", "DUCT", "CONTROL")]
+            for explicit, surgery in variants:
+                for setFuel in (True, False):
+                    b = copy.deepcopy(b0)
+                    if surgery and surgery.startswith("flags:"):
+                        b.p.flags = getattr(Flags, surgery[6:])      # the block carries exactly this flag
+                    if surgery == "drop-first-solid":
+                        sol = [c for c in b if not isinstance(c.material, mat_mod.Fluid)]
+                        if len(sol) < 2:
+                            continue
+                        b.remove(sol[0])
+                    elif surgery == "drop-flagged":
+                        sol = [c for c in b if c.hasFlags(Flags.CLAD) or c.hasFlags(Flags.FUEL)]
+                        if not sol:
+                            continue
+                        for c in sol:
+                            b.remove(c)
+                    if surgery == "twin-flags":      # two children carrying the same flags: several candidates
+                        sol = [c for c in b if not isinstance(c.material, mat_mod.Fluid)]
+                        if len(sol) < 2:
+                            continue
+                        sol[1].p.flags = sol[0].p.flags
+                    b.p.axialExpTargetComponent = explicit
+                    children = list(b)
+                    cs = "[" + ",".join(f"[{flag_int(c.p.flags)},{int(not isinstance(c.material, mat_mod.Fluid))}]" for c in children) + "]"
+                    if explicit == "":
+                        ex = "-"
+                    else:
+                        hits = [k for k, c in enumerate(children) if c.name == explicit]
+                        ex = str(hits[0]) if len(hits) == 1 else "x"
+                    case = {"assembly": a0.getType(), "block": b0.getType(), "explicit": explicit, "surgery": surgery,
+                            "setFuel": setFuel, "children": [c.name for c in children]}
+                    try:
+                        with common.quiet():
+                            ed = ExpansionData([b], setFuel, False)
+                        tg = [k for k, c in enumerate(children) if ed.isTargetComponent(c)]
+                        out = "none" if not tg else (str(tg[0]) if len(tg) == 1 else "several")
+                        if tg and b.p.axialExpTargetComponent != children[tg[0]].name:
+                            ctx.fail("target-name-recorded", "the chosen target's name is recorded on the block", case,
+                                     observed=b.p.axialExpTargetComponent, expected=children[tg[0]].name)
+                    except (RuntimeError, ValueError, AttributeError):
+                        out = "reject"
+                    except Exception as e:  # noqa
+                        ctx.fail("target-selection-unexpected-exception", "target selection chooses one child or refuses with "
+                                 "RuntimeError / ValueError", case, observed=repr(e)[:200])
+                        continue
+                    if out == "several":
+                        ctx.fail("target-unique", "a block has at most one target component", case, observed=tg)
+                        continue
+                    req.append(f"target {F[0]} {F[1]} {F[2]} {F[3]} {F[4]} {pref} {'T' if setFuel else 'F'} "
+                               f"{flag_int(b.p.flags)} {ex} {cs}")
+                    chk.append((dict(case, what="target component"), out))
+                    ctx.count("target selection: " + ("refused" if out == "reject" else ("dummy: none" if out == "none" else "chosen")))
+                    ctx.case(("target", a0.getType(), b0.getType(), explicit, surgery, setFuel), nontrivial=True)
+
+
+def run_link_pairs(ctx):
+    """areAxiallyLinked on pairs of freshly constructed components (classes, multiplicities and dimensions from a
+    small lattice so that equal / touching / nested dimensions all occur), both argument orders"""
+    from armi.reactor.components import DerivedShape, UnshapedComponent
+    from armi.reactor.components.basicShapes import Circle, Hexagon
+    from armi.reactor.components.complexShapes import HexHoledCircle, HoledHexagon
+    from armi.reactor.converters.axialExpansionChanger import assemblyAxialLinkage as aal
+
+    req, chk = LINK
+    _c, snapshot, _i = make_changer()
+    T = {"Tinput": 25.0, "Thot": ctx.rng.choice([25.0, 400.0])}
+    dims = [0.0, 0.5, 0.75, 1.0, 1.25, 1.5, 2.0]
+
+    def make(k=None, mult=None):
+        k = ctx.rng.randrange(6) if k is None else k
+        mat = ctx.rng.choice(["HT9", "HT9", "HT9", "UZr", "Sodium"])
+        mult = ctx.rng.choice([1.0, 61.0, 127.0]) if mult is None else mult
+        a, b = sorted(ctx.rng.sample(dims, 2))
+        if k == 0:
+            return Circle("c", mat, od=b, id=a, mult=mult, **T)
+        if k == 1:
+            return Hexagon("h", mat, op=b, ip=a, mult=mult, **T)
+        if k == 2:
+            return HoledHexagon("hh", mat, op=max(b, 0.5), holeOD=min(a, 0.25), nHoles=ctx.rng.choice([1, 7]), mult=mult, **T)
+        if k == 3:
+            return HexHoledCircle("hc", mat, od=max(b, 0.5), holeOP=min(a, 0.25), mult=mult, **T)
+        if k == 4:
+            return UnshapedComponent("u", mat, area=1.0, **T)
+        return Circle("c2", mat, od=b, id=a, mult=mult, **T)
+
+    geo = None
+    for _ in range(ctx.pick(400, 5000)):
+        with common.quiet():
+            k0, m0 = ctx.rng.randrange(6), ctx.rng.choice([1.0, 61.0, 127.0])
+            c = make(k0, m0)
+            u = ctx.rng.random()
+            d = make(k0, m0) if u < 0.6 else (make(k0) if u < 0.8 else make())
+        # geometry through the same reader the snapshot uses
+        from armi.reactor.components import UnshapedComponent as U
+
+        def g(x):
+            tag = CLASS_TAGS.setdefault(type(x), len(CLASS_TAGS) + 1)
+            un = isinstance(x, U)
+            if un:
+                i = o = 0.0
+            else:
+                i, o = float(x.getCircleInnerDiameter(cold=True)), float(x.getBoundingCircleOuterDiameter(cold=True))
+            try:
+                m = float(x.getDimension("mult"))
+            except Exception:  # noqa
+                m = 1.0
+            return [tag, int(un), int(bool(x.containsSolidMaterial())), m, i, o]
+
+        case = {"A": [type(c).__name__, c.material.name], "B": [type(d).__name__, d.material.name]}
+        try:
+            with common.quiet():
+                r1, r2 = bool(aal.areAxiallyLinked(c, d)), bool(aal.areAxiallyLinked(d, c))
+            gc, gd = g(c), g(d)
+        except Exception as e:  # noqa
+            ctx.fail("linkage-check-raises", "areAxiallyLinked answers for every pair of components", case, observed=repr(e)[:200])
+            continue
+        case.update(geoA=gc, geoB=gd)
+        if r1 != r2:
+            ctx.fail("linkage-symmetric", "areAxiallyLinked(A, B) == areAxiallyLinked(B, A)", case, observed=[r1, r2])
+        req.append(f"linked {ratlist(gc)} {ratlist(gd)}")
+        chk.append((dict(case, what="areAxiallyLinked"), "T" if r1 else "F"))
+        ctx.count("areAxiallyLinked pairs: " + ("linked" if r1 else "not linked"))
+        ctx.case(("pair", tuple(gc), tuple(gd)), nontrivial=True)
+
+
+def compare_links(ctx):
+    req, chk = LINK
+    model = lean_run("AxialExp", req)
+    for (case, impl), line, rq in zip(chk, model, req):
+        if line != impl:
+            ctx.disagree("Model/Linkage.lean vs AssemblyAxialLinkage / ExpansionData target selection",
+                         dict(case, request=rq[:300]), line[:300], impl[:300])
+    ctx.evaluations += len(req)
+    ctx.count("linkage / alignment / target-selection model requests", len(req))
+    if req:
+        ctx.samples.append({"request": req[0][:300], "model": model[0][:200], "impl": chk[0][1][:200]})
+
+
 def run(ctx):
+    del LINK[0][:], LINK[1][:]
     collect = ([], [])
+    run_targets(ctx)
+    run_link_pairs(ctx)
     run_built(ctx, collect)
     run_rejects(ctx, collect)
     run_zero_celsius(ctx, collect)
     run_small_steps(ctx, collect)
     run_sequences(ctx, ctx.pick(150, 1500), collect)
     compare(ctx, *collect)
+    compare_links(ctx)
     ctx.rule = ("one case = one real expansion (assembly type of the detailedAxialExpansion fixture, history of earlier "
                 "expansions on the same object, mode uniform / per-component / inverse pair / thermal, percent vector or "
                 "temperature field); sequences of 1-5 expansions on one deep copy; closed isothermal cycles through exactly "
